@@ -158,7 +158,9 @@ def main():
             trouble.append("seed %s: %s" % (r["seed"], r["harness_error"][:2000]))
     # ---- determinism re-runs (fresh process, same seeds) ----
     det_checked = det_bad = 0
-    sample = [r for r in results if not r.get("violations")][:: max(1, len(results) // 24)][:24]
+    # (a full fault sweep re-runs a history once per fault position: fewer seeds then)
+    nsample = 4 if str(tspec.get("sweep", "")).endswith(":all") else 24
+    sample = [r for r in results if not r.get("violations")][:: max(1, len(results) // nsample)][:nsample]
     if sample and not trouble:
         rc = 0
         again = {}
